@@ -331,6 +331,11 @@ func (R *Repository) updateCRL(identifier string) error {
 	if entry != nil {
 		R.logger.Debug("updating crl from " + entry.CRLLoader.GetDescription())
 		entry.entryLock.Lock()
+		if entry.Closed {
+			//nothing to update after shutdown, operations on the closed store would only run into their retries
+			entry.entryLock.Unlock()
+			return nil
+		}
 		if entry.Loaded == false {
 			defer entry.entryLock.Unlock()
 			return R.loadCRL(entry, entry.Chains)
@@ -575,6 +580,9 @@ func (R *Repository) isEntryPresentAndLoaded(identifier string) bool {
 func (R *Repository) loadActively(entry *Entry, chains *core.CertificateChains, crlLocations *core.CRLLocations) error {
 	entry.entryLock.Lock()
 	defer entry.entryLock.Unlock()
+	if entry.Closed {
+		return fmt.Errorf("crl repository was closed")
+	}
 	//check again after getting write lock if entry is still not loaded
 	if entry.Loaded == false {
 		err := entry.CRLStore.UpdateCRLLocations(crlLocations)
